@@ -158,12 +158,30 @@ def nc_config(draw, family):
     return {"variant": None, "read_args": ra, "write_args": wa}
 
 
+PREFIX_PAIRS = [("A", "AB"), ("AB", "ABC"), ("NOAA1", "NOAA18"),
+                ("v1", "v10"), ("1", "12"), ("Metop", "MetopA")]
+
+
+@st.composite
+def prefix_placeholder(draw, name):
+    """user placeholder of vp/gen/filesets.py whose values contain a proper
+    prefix of another value on purpose (filters must match whole values):
+    values = [short, short + more, something else]"""
+    spec = draw(G.user_placeholder(name))
+    if spec["kind"] == "regex":
+        spec["regex"] = r"[A-Za-z0-9]+"
+    short, longer = draw(st.sampled_from(PREFIX_PAIRS))
+    other = draw(st.sampled_from(["B", "x1y", "07", "b2"]))
+    spec["values"] = [short, longer, other]
+    return spec
+
+
 @st.composite
 def fileset_specs(draw, family, sep):
-    n_user = draw(st.sampled_from([0, 0, 1, 1, 2]))
+    n_user = draw(st.sampled_from([0, 1, 1, 1, 2]))
     user = {}
     for name in ["sat", "orbit"][:n_user]:
-        user[name] = draw(G.user_placeholder(name))
+        user[name] = draw(prefix_placeholder(name))
     n = draw(st.sampled_from([2, 2, 3]))
     anchor = draw(G.instants("second"))
     specs = []
@@ -442,7 +460,7 @@ def near(draw, bounds):
 @st.composite
 def selections(draw, bounds, user):
     kind = draw(st.sampled_from(["all", "period", "period", "files", "files",
-                                 "filters"]))
+                                 "filters", "filters"]))
     sel = {"kind": kind, "start": None, "end": None,
            "no_files_error": draw(st.sampled_from([None, None, False]))}
     if kind in ("period", "filters"):
@@ -460,11 +478,15 @@ def selections(draw, bounds, user):
         else:
             name = draw(st.sampled_from(sorted(user)))
             vals = user[name]["values"]
-            shape = draw(st.sampled_from(["value", "list"]))
-            v = draw(st.sampled_from(vals)) if shape == "value" else draw(
-                st.lists(st.sampled_from(vals), min_size=1, max_size=2,
-                         unique=True))
-            black = draw(st.booleans())
+            # (the first value is a proper prefix of the second: black and
+            # white lists must match whole values)
+            shape = draw(st.sampled_from(["value", "value", "list"]))
+            first = draw(st.sampled_from([vals[0], vals[0], vals[1],
+                                          vals[-1]]))
+            v = first if shape == "value" else [first] + [
+                x for x in draw(st.lists(st.sampled_from(vals), max_size=1))
+                if x != first]
+            black = draw(st.sampled_from([True, True, False]))
             sel["filters"] = {("!" if black else "") + name: v}
     return sel
 
@@ -502,7 +524,7 @@ def histories(draw, family, max_ops=12):
     for _ in range(n_more):
         what = draw(st.sampled_from(["write", "overwrite", "read", "read",
                                      "move", "move", "move", "move",
-                                     "delete", "delete"]))
+                                     "delete", "delete", "mirror", "mirror"]))
         if what == "write":
             ops.append(write_op())
         elif what == "overwrite":
@@ -520,6 +542,17 @@ def histories(draw, family, max_ops=12):
                 "file": draw(st.integers(0, 11)),
                 "frac": draw(st.sampled_from([0, 0, 1, 2])),
                 "sel": draw(selections(bounds, user))})
+        elif what == "mirror":
+            # copy everything, rewrite some originals with other content of
+            # the same size, copy again to the same target
+            ops.append({
+                "op": "mirror", "fs": draw(st.integers(0, n_fs - 1)),
+                "to": draw(st.integers(0, n_fs - 1)),
+                "target_as": draw(st.sampled_from(["fileset", "path"])),
+                "rewrite": draw(st.lists(st.integers(0, 11), min_size=1,
+                                         max_size=3)),
+                "worker_type": draw(st.sampled_from([None, "thread",
+                                                     "process"]))})
         elif what == "move":
             ops.append({
                 "op": "move", "fs": draw(st.integers(0, n_fs - 1)),
